@@ -1,8 +1,10 @@
 (** C17 - output depends only on the type graph (statements only). *)
 From Coq Require Import List NArith String Bool Permutation.
 From V Require Import Base.Strings Base.Result Model.Registry Model.Settings Model.Subst
-  Model.TypePath Model.Derives Model.Generate Model.Emit Model.Equal Model.Renumber
-  Proofs.GenProofs Proofs.SortDedup Proofs.ItemsCanonical Proofs.RenumberPerm Proofs.Equivariance.
+  Model.TypePath Model.Derives Model.Generate Model.Emit Model.Equal Model.Shape Model.Renumber
+  Model.Families Model.Inputs Model.ExamplesTG Model.ExamplesFam
+  Proofs.GenProofs Proofs.SortDedup Proofs.ItemsCanonical Proofs.RenumberPerm Proofs.Equivariance
+  Proofs.PermFamilies Proofs.ExamplesC17.
 Import ListNotations.
 
 (** keep-first: the item at an occupied path is never replaced, whatever follows in the registry *)
@@ -121,3 +123,113 @@ Theorem C17_permutation_tokens_partial :
       emit_module s m1 = emit_module s m2.
 Proof. exact permutation_tokens_partial. Qed.
 Print Assumptions C17_permutation_tokens_partial.
+
+(** ** same-path families and recursive derives (Proofs/PermFamilies.v) *)
+
+(** the item tokens are a function of the id-erased IR ([erase_ids], Model/Shape.v), the docs
+    recorded in the IR and the derive TOKENS: neither [tpi_id] nor [tpi_orig] is ever printed *)
+Theorem C17_tokens_from_skeleton :
+  forall s a b,
+    erase_ids a = erase_ids b -> ir_docs a = ir_docs b ->
+    derives_tokens (ti_derives a) = derives_tokens (ti_derives b) ->
+    type_ir_tokens s a = type_ir_tokens s b.
+Proof. exact type_ir_tokens_skel. Qed.
+Print Assumptions C17_tokens_from_skeleton.
+
+(** the reachability traversal of the recursive derives commutes with the renumbering EXACTLY
+    (same visiting order, visited list renamed), for every fuel, start id and visited list *)
+Theorem C17_collect_ids_equivariant :
+  forall pi r, renumbering (N.of_nat (List.length r)) pi ->
+    forall fuel id vis,
+      collect_ids fuel (renumber pi r) (pi id) (map pi vis) = rmap (map pi) (collect_ids fuel r id vis).
+Proof.
+  intros pi r Hpi. apply collect_ids_equivariant; [exact (proj1 Hpi)|apply resolve_renumber; exact Hpi].
+Qed.
+Print Assumptions C17_collect_ids_equivariant.
+
+Theorem C17_collect_type_ids_equivariant :
+  forall pi r, renumbering (N.of_nat (List.length r)) pi ->
+    forall id, collect_type_ids (renumber pi r) (pi id) = rmap (map pi) (collect_type_ids r id).
+Proof. exact collect_type_ids_renumber. Qed.
+Print Assumptions C17_collect_type_ids_equivariant.
+
+(** what a path receives from [flatten_recursive_derives], as a SET: the default derives, the
+    specific derives of its key, and the derives of every recursive rule whose root entry
+    reaches an entry with that key ([rec_in]); stated for the derive paths, the same holds for
+    the attributes *)
+Theorem C17_flatten_sets :
+  forall dr r flat, ids_consistent r = true -> flatten dr r = Ok flat ->
+    forall k x,
+      In x (d_derives (resolve_derives flat k)) <->
+      In x (d_derives (dr_default dr)) \/
+      In x (d_derives (sget (flat_of_specific (dr_specific dr)) k)) \/
+      rec_in d_derives r (dr_recursive dr) k x.
+Proof. intros dr r flat. apply (flatten_sem d_derives); reflexivity. Qed.
+Print Assumptions C17_flatten_sets.
+
+(** ... and that set is invariant under renumbering *)
+Theorem C17_recursive_derives_invariant :
+  forall pi r, renumbering (N.of_nat (List.length r)) pi ->
+    forall proj rec k x, rec_in proj (renumber pi r) rec k x <-> rec_in proj r rec k x.
+Proof. exact rec_in_renumber. Qed.
+Print Assumptions C17_recursive_derives_invariant.
+
+(** C17_permutation_tokens, FULL: permuting the entries of a registry with consistent
+    renumbering of all ids leaves the generated module token-identical.  [teq], [teq'] are
+    arbitrary (in particular [types_equal r] and [types_equal (renumber pi r)]); any number of
+    item-eligible entries per path; recursive derives allowed.  Hypotheses (Model/Shape.v,
+    Model/Families.v), all decidable and evaluated per case:
+    - [skeleton_consistent r s]: every item-eligible entry has the same id- and doc-erased IR
+      as the first entry with its path (the class of C01_fidelity);
+    - [docs_consistent r s]: with docs on, the members of a family carry the same doc strings
+      (type and per variant).  NOT implied by skeleton consistency ([erase_ids] forgets docs) and
+      NOT droppable: [C17_docs_hypothesis_needed] below.  Same Rust definition = same docs, so
+      registries derived from programs satisfy it;
+    - [derives_functional s]: over all derive paths (attributes) in the settings, equal sort keys
+      carry equal tokens - the hash-set identity of a derive is its token string, so this holds
+      for every settings value built by the real builders;
+    - both generations are [Ok].  NOT proved: "[Ok] iff [Ok]" (needs [types_equal] to be an
+      equivalence on every family, false on the pinned tree: F1/F3/F14).
+    The restriction half (retain()-ed sub-registries) is not proved. *)
+Theorem C17_permutation_tokens :
+  forall pi r s, renumbering (N.of_nat (List.length r)) pi ->
+    forall teq teq' m1 m2,
+      skeleton_consistent r s -> docs_consistent r s -> derives_functional s ->
+      generate r s teq = Ok m1 ->
+      generate (renumber pi r) s teq' = Ok m2 ->
+      emit_module s m1 = emit_module s m2.
+Proof. exact permutation_tokens. Qed.
+Print Assumptions C17_permutation_tokens.
+
+(** the same with the hypotheses as the boolean checkers *)
+Theorem C17_permutation_tokens_checked :
+  forall pi r s teq teq' m1 m2,
+    renumbering (N.of_nat (List.length r)) pi ->
+    skeleton_consistentb r s = true -> docs_consistentb r s = true -> derives_functionalb s = true ->
+    generate r s teq = Ok m1 -> generate (renumber pi r) s teq' = Ok m2 ->
+    emit_module s m1 = emit_module s m2.
+Proof. exact permutation_tokens_b. Qed.
+Print Assumptions C17_permutation_tokens_checked.
+
+(** the hypotheses are satisfiable by a registry with a two-member family, a renumbering that
+    swaps the members, and settings with recursive + specific derives *)
+Theorem C17_permutation_hypotheses_satisfiable :
+  exists pi r s,
+    renumbering (N.of_nat (List.length r)) pi /\
+    skeleton_consistentb r s = true /\ docs_consistentb r s = true /\ derives_functionalb s = true /\
+    dr_recursive (s_dreg s) <> [] /\ ~ unique_item_paths r s /\
+    is_ok (generate r s (types_equal r)) = true /\
+    is_ok (generate (renumber pi r) s (types_equal (renumber pi r))) = true.
+Proof. exact family_hypotheses_satisfiable. Qed.
+Print Assumptions C17_permutation_hypotheses_satisfiable.
+
+(** without [docs_consistent] the statement is false (skeleton-consistent family whose members
+    differ in docs only; both runs [Ok]; different tokens) *)
+Theorem C17_docs_hypothesis_needed :
+  exists pi r s,
+    renumbering (N.of_nat (List.length r)) pi /\ skeleton_consistent r s /\ derives_functional s /\
+    exists m1 m2, generate r s (types_equal r) = Ok m1 /\
+                  generate (renumber pi r) s (types_equal (renumber pi r)) = Ok m2 /\
+                  emit_module s m1 <> emit_module s m2.
+Proof. exact docs_hypothesis_needed. Qed.
+Print Assumptions C17_docs_hypothesis_needed.
